@@ -15,8 +15,8 @@ from ..observe import arun as _arun
 
 ID = "C10"
 LEVEL = "exploration"
-BUDGET = {"quick": 1200, "thorough": 24000}
-SHARDS = {"quick": 8, "thorough": 16}
+BUDGET = {"quick": 1792, "thorough": 24000}
+SHARDS = {"quick": 16, "thorough": 16}
 RULE = (
     "Hypothesis-generated map calls over an inner graph k(p..., bc) -> key; if/else gate on key -> ev | od; ev fails for some keys; "
     "optional node mutating a broadcast list: 1-3 mapped parameters, map_over order drawn independently of the values-dict order, "
